@@ -5,7 +5,7 @@
 set -u
 P=$1; PATCH=$(readlink -f "$2"); DEMO=$(readlink -f "$3"); shift 3
 W=$(mktemp -d /tmp/seedcheck-XXXXXX)
-cp -r /repo/. "$W"/ && rm -rf "$W/.git"
+git -C /repo archive HEAD | tar -x -C "$W"      # the committed tree, not the working tree (seedconfirm may have a patch applied there)
 cd "$W"
 cp "$DEMO" "$W/_demo.py"; DEMO="$W/_demo.py"      # run from the scratch copy so that ITS cflib is imported
 /venv/bin/python "$DEMO" > "$W/demo_clean.log" 2>&1; c1=$?
